@@ -3,6 +3,7 @@ import NutsModel.C10.DidStore
 import NutsModel.C10.Shelves
 import NutsModel.C10.DocShelves
 import NutsModel.C10.ReadPath
+import NutsModel.C10.Cache
 import NutsModel.Facts.C10
 open Lean Nuts.Drv Nuts.C10 Nuts
 
@@ -42,6 +43,7 @@ structure St where
   last : String := "no-seq"
   raw : String := "no-seq"
   rf : String := "no-seq"
+  stale : String := "no-seq"
 
 /-- FNV-1a 64 over the UTF-8 bytes (same function in the Go harness): short names for content hashes -/
 def fnv64 (s : String) : UInt64 :=
@@ -92,6 +94,7 @@ structure Both where
   sh : List (String × Shelves) := []
   blob : Blob := {}
   stats : Stats := {}
+  stale : List String := []   -- what Conflicted() / the counters say right after each rolled-back Add (code 3)
 
 def hex2 (n : Nat) : String := String.ofList [hexDigit (n / 16 % 16), hexDigit (n % 16)]
 
@@ -216,15 +219,29 @@ def runSeq (b : Both) : List (Event × Nat) → Res Both
     if code = 1 ∨ code = 2 ∨ code = 3 ∨ code > 100 then
       -- the first write transaction (writeDocument: shelf operations 1 and 2) commits on its own
       let mode := if code = 1 ∨ code = 101 ∨ code = 102 then 1 else 2
+      -- code 3: the closure of the second write transaction ran to its end (the in-memory map was updated) and the
+      -- transaction was rolled back (Cache.lean: addRolledBack); only the map is affected and the next committed Add
+      -- or restart of this DID repairs it (stale_cache_entries_are_confined_and_repaired), so the state carried on
+      -- is the one before — but the cache of the carried state must be the stale one for later Conflicted() calls
+      let (s1, stale1) := if code = 3 then
+          (match addRolledBack cfg b.s e with
+           | .ok t =>
+             let entry := match conflictedOf t e.doc.id with
+               | some (doc, m) => "H" ++ hex16 (fnv64 doc.render) ++ "/" ++ String.intercalate "," (m.sourceTx.map shortRef)
+               | none => "-"
+             (t, b.stale ++ [s!"{e.doc.id}={entry} cc={b.s.conflictedCount}>{t.conflictedCount} dc={b.s.documentCount}>{t.documentCount}"])
+           | .err x => (b.s, b.stale ++ ["err:" ++ x])
+           | .panic x => (b.s, b.stale ++ ["panic:" ++ x]))
+        else (b.s, b.stale)
       match dAddS cfg b.blob b.s b.stats e mode with
-      | .ok (blob', _, _) => runSeq { b with blob := blob' } rest
+      | .ok (blob', _, _) => runSeq { b with blob := blob', s := s1, stale := stale1 } rest
       | .err x => .err x
       | .panic x => .panic x
     else
       let s0 := if code = 4 then reload b.s else b.s
       match dAddS cfg b.blob s0 b.stats e 0, sAdd cfg ((alGet b.sh e.doc.id).getD {}) e with
       | .ok (blob', s', stats'), .ok none => runSeq { b with s := s', blob := blob', stats := stats' } rest
-      | .ok (blob', s', stats'), .ok (some st') => runSeq { s := s', sh := alPut b.sh e.doc.id st', blob := blob', stats := stats' } rest
+      | .ok (blob', s', stats'), .ok (some st') => runSeq { b with s := s', sh := alPut b.sh e.doc.id st', blob := blob', stats := stats' } rest
       | .ok _, .err x => .err ("shelf-model:" ++ x)
       | .ok _, .panic x => .panic ("shelf-model:" ++ x)
       | .err x, _ => .err x
@@ -243,12 +260,13 @@ def step (st : St) (j : Json) : St × List String :=
     | .ok b =>
       let o := observe b evs.toList times probes false
       -- restart: the durable state survives, the conflicted cache is rebuilt from the shelves
-      ({ last := observe { b with s := reload b.s } evs.toList times probes true, raw := showRaw b, rf := showRFault b evs.toList times }, [o])
-    | .err e => ({ last := "err:" ++ e, raw := "err:" ++ e, rf := "err:" ++ e }, ["err:" ++ e])
-    | .panic e => ({ last := "panic:" ++ e, raw := "panic:" ++ e, rf := "panic:" ++ e }, ["panic:" ++ e])
+      ({ last := observe { b with s := reload b.s } evs.toList times probes true, raw := showRaw b, rf := showRFault b evs.toList times, stale := "stale " ++ String.intercalate " | " b.stale }, [o])
+    | .err e => ({ last := "err:" ++ e, raw := "err:" ++ e, rf := "err:" ++ e, stale := "err:" ++ e }, ["err:" ++ e])
+    | .panic e => ({ last := "panic:" ++ e, raw := "panic:" ++ e, rf := "panic:" ++ e, stale := "panic:" ++ e }, ["panic:" ++ e])
   | "again" => (st, [st.last])
   | "raw" => (st, [st.raw])
   | "rfault" => (st, [st.rf])
+  | "stale" => (st, [st.stale])
   | o => (st, ["bad-op:" ++ o])
 
 end Nuts.Drv.C10
